@@ -90,6 +90,8 @@ pub use streams::{
 };
 
 mod timer;
+#[cfg(feature = "quinn_rs_quinn_verif")]
+pub mod verif;
 use crate::congestion::Controller;
 use timer::{Timer, TimerTable};
 
